@@ -43,7 +43,7 @@ func vCandidateBytes(req *RequestVoteRequest) []byte {
 // request; every stable-store call may fail.
 func vh_vote_step() {
 	n := vChoose("n", 0, 2+vTier())
-	r, env := vNewRaft("a", vRaftOpts{n: n})
+	r, env := vNewRaft("a", vRaftOpts{n: n, splitCommitted: true})
 	env.stable.absentErr = vChoose("absentErr", 0, 1) == 1
 	g := &vVoteGhost{term: vU64("g.term"), cand: vBlob("g.cand")}
 	vAssume(vInvBasic(r, env))
@@ -144,7 +144,7 @@ func vAssertKF(prop bool, cause bool, id string, finding string) {
 // vh_prevote_step: one requestPreVote from an arbitrary R-state.
 func vh_prevote_step() {
 	n := vChoose("n", 0, 2+vTier())
-	r, env := vNewRaft("a", vRaftOpts{n: n})
+	r, env := vNewRaft("a", vRaftOpts{n: n, splitCommitted: true})
 	vAssume(vInvBasic(r, env))
 	req := &RequestPreVoteRequest{
 		RPCHeader:    RPCHeader{ProtocolVersion: ProtocolVersionMax, ID: vBlob("req.id"), Addr: vBlob("req.addr")},
